@@ -143,3 +143,27 @@ Example witness1_events :
       (run_events (C20.c_sched witness1) (C20.c_k0 witness1) (code_a witness1) (code_b witness1))
   = [(false, bs "/b/layers/l1/build/proc", Some [], [true; true; true])].
 Proof. vm_compute. reflexivity. Qed.
+
+(* the hypothesis of the serial-picks theorem: a mount and an umount of l2, one after the other
+   (empty schedule = the first invocation runs to completion first); both make calls *)
+Definition witness_serial : C20.case := w_case (CMount (bs "l2")) (CUmount (bs "l2") false) [] [].
+Example serial_hyps_sat :
+  serial_picks (tr_picks (run_trace (run_of witness_serial))) = true /\
+  length (C20.o_calls_a (C20.model witness_serial)) = 8%nat /\
+  length (C20.o_calls_b (C20.model witness_serial)) = 4%nat /\
+  C20.kf witness_serial = 0%N.
+Proof. vm_compute. auto. Qed.
+
+(* the hypotheses of stack_only_if_stale_other on the run that does stack (witness 1) *)
+Example stale_other_hyps_sat :
+  C20.nodup_b (targets (code_a witness1)) = true /\ C20.nodup_b (targets (code_b witness1)) = true /\
+  length (targets (code_a witness1)) = 3%nat.
+Proof. vm_compute. auto. Qed.
+
+(* why stack_only_if_stale_other needs codes without repeated targets: a code that names a
+   target twice without reading the table in between stacks on its own mount *)
+Example stale_other_needs_nodup :
+  map (fun e => (se_first e, se_seen e, se_since e))
+      (run_events [] [] [IProbe; IMountIf (bs "/m") false; IMountIf (bs "/m") false] [])
+  = [(true, Some [], [(true, bs "/m")])].
+Proof. vm_compute. reflexivity. Qed.
